@@ -159,6 +159,11 @@ impl Iterator for ReluctantFixedIterator<'_> {
             self.matcher.clear_captured_groups_beyond(self.position);
             let mut it = self.op.matches_iter(self.matcher, self.pos);
             if let Some(next) = it.next() {
+                if next == self.pos {
+                    // a further zero-length iteration yields nothing new;
+                    // without this the iterator never ends for an unbounded max
+                    return None;
+                }
                 self.pos = next;
                 self.count += 1;
                 return Some(self.pos);
